@@ -3,4 +3,3 @@ package main
 func genStyle(ps *pkgs, out string)  {}
 func genApi(ps *pkgs, out string)    {}
 func genLocks(ps *pkgs, out string)  {}
-func genPolicy(ps *pkgs, out string) {}
